@@ -7,9 +7,10 @@ from fractions import Fraction
 import numpy as np
 
 from . import mc, tlc
-from .common import allclose, close, fr, key
+from .common import ImplementationTimeout, allclose, close, fr, key, time_limit
 
 NOCAP = -1
+TIMEOUTS = [0]
 NOTHR = Fraction(-1)
 
 INVARIANTS = ["CapRespected", "AllFinite", "NoConvergenceBeforeStep2"]
@@ -199,7 +200,21 @@ def walk_from(em, g, init_view, tf=None, dask_mode=None, sched_factory=None, fin
         nonlocal final
         if view["status"] == "done":
             if final is None:
-                final = fit(cap, thr_f)
+                if cap == NOCAP and TIMEOUTS[0] >= 3:
+                    final = "timeout"       # already reported three times: do not wait again
+                    return "left-domain"
+                try:
+                    with time_limit(3):
+                        final = fit(cap, thr_f)
+                except ImplementationTimeout:
+                    TIMEOUTS[0] += 1
+                    why_last[0] = "StopRule"
+                    why_last[1] = ("the model stops after %d iteration(s); the fit with cap=%s thr=%s did not return "
+                                   "within 3 s (a fit of this size takes milliseconds)" % (k, cap, thr))
+                    final = "timeout"
+                    return None
+            if isinstance(final, str):
+                return "left-domain"
             ck, cr = at(k) if k > 0 else (init, float("inf"))
             same = np.array_equal(final[0], ck, equal_nan=True) and \
                 (final[1] == cr or (np.isnan(final[1]) and np.isnan(cr)))
